@@ -469,7 +469,11 @@ class Average(Numeric):
       parent_decisions: List[Optional[float]]) -> float:
     del decision_point
     parent_decisions = [d for d in parent_decisions if d is not None]
-    return sum(parent_decisions) / len(parent_decisions)
+    value = sum(parent_decisions) / len(parent_decisions)
+    # The mean lies between the smallest and the largest parent value; float
+    # rounding may leave that range (and the range of the decision point) by
+    # an ulp, e.g. (0.1 + 0.1 + 0.1) / 3 == 0.10000000000000002.
+    return min(max(value, min(parent_decisions)), max(parent_decisions))
 
 
 @pg.members([
@@ -511,11 +515,19 @@ class WeightedAverage(Numeric):
     del decision_point
     decision = 0.0
     denominator = 0.0
+    used = []
     for d, w in zip(parent_decisions, self._parent_weights):
       if d is not None:
         decision += w * d
         denominator += w
-    return decision / denominator
+        used.append((d, w))
+    value = decision / denominator
+    if all(w >= 0 for _, w in used):
+      # With non-negative weights the weighted mean lies between the smallest
+      # and the largest parent value; float rounding may leave that range by
+      # an ulp.
+      value = min(max(value, min(d for d, _ in used)), max(d for d, _ in used))
+    return value
 
 
 #
